@@ -257,6 +257,7 @@ def execute(case, keep_log=False):
         typecodes = {}
         nontrivial = False
         retained = []          # (client, op index, the list object a fetch returned, its canonical snapshot)
+        retained_desc = []     # (client, op index, a description entry handed out earlier, (name, len))
         last_list = [None] * ncl
         order = sim.schedule_order(case.get('schedule', []), [len(c['ops']) for c in case['clients']])
 
@@ -449,7 +450,11 @@ def execute(case, keep_log=False):
                 elif k == 'rownumber':
                     obs = cur.rownumber
                 elif k == 'description':
-                    obs = observe_desc(cur.description, typecodes, viols)
+                    d_ = cur.description
+                    obs = observe_desc(d_, typecodes, viols)
+                    if d_ is not None and len(retained_desc) < 40:
+                        for e_ in d_:
+                            retained_desc.append((ci, oi, e_, (e_[0], len(e_))))
                 elif k == 'arraysize':
                     cur.arraysize = op['n']
                     obs = None
@@ -497,6 +502,15 @@ def execute(case, keep_log=False):
                 for s in alts:
                     seen[(s.pos, s.total, s.cleared, s.rows is None, s.arraysize, core.jdump(s.desc))] = s
                 models[ci] = list(seen.values())
+        # description entries handed out earlier keep describing the column they described
+        for (ci, oi, e_, snap) in retained_desc:
+            try:
+                now = (e_[0], len(e_))
+            except Exception as ex:
+                now = core.exc_class(ex)
+            if now != snap:
+                violation('description-entry-changed-later', ci, oi, case['clients'][ci]['ops'][oi], list(snap), now)
+                break
         # rows handed out by earlier fetch calls stay what they were, whatever the cursor did afterwards
         for (ci, oi, lst, snap) in retained:
             try:
